@@ -150,8 +150,8 @@ theorem estimate_ge_aux (env : Env) (rd : Reader) (hdocs : rd.docs = env.index) 
       subst ht
       obtain ⟨x, hx⟩ := hasField_exists hs
       exact ⟨x, hx, by simp⟩
-    · simp only [List.any_eq_true, Bool.and_eq_true] at hs
-      obtain ⟨x, hx, _, hP⟩ := hs
+    · simp only [List.any_eq_true] at hs
+      obtain ⟨x, hx, hP⟩ := hs
       exact ⟨x, hx, hP⟩
   | .wild f t b c, n, h => by
     simp only [estimate, Option.some.injEq] at h
@@ -164,28 +164,24 @@ theorem estimate_ge_aux (env : Env) (rd : Reader) (hdocs : rd.docs = env.index) 
       subst ht
       obtain ⟨x, hx⟩ := hasField_exists hs
       exact ⟨x, hx, by rw [parseGlob_star]; exact gmatch_star x⟩
-    · simp only [List.any_eq_true, Bool.and_eq_true] at hs
-      obtain ⟨x, hx, _, hP⟩ := hs
+    · simp only [List.any_eq_true] at hs
+      obtain ⟨x, hx, hP⟩ := hs
       exact ⟨x, hx, hP⟩
   | .multi k f t key b, n, h => by
     simp only [estimate, Option.some.injEq] at h
     subst h
     apply leaf_estimate env rd hdocs hrd _ f (fun x => env.multi k f t key x) rfl
     intro d hs
-    simp only [sat, List.any_eq_true, Bool.and_eq_true] at hs
-    obtain ⟨x, hx, _, hP⟩ := hs
+    simp only [sat, List.any_eq_true] at hs
+    obtain ⟨x, hx, hP⟩ := hs
     exact ⟨x, hx, hP⟩
   | .range f lo hi lx hx b c, n, h => by
     simp only [estimate, Option.some.injEq] at h
     subst h
-    apply leaf_estimate env rd hdocs hrd _ f
-      (fun x => inRange lo hi lx hx x && !(lo == none && lx && x == [])) rfl
+    apply leaf_estimate env rd hdocs hrd _ f (fun x => inRangeQ lo hi lx hx x) rfl
     intro d hs
-    simp only [sat, List.any_eq_true, Bool.and_eq_true, bne_iff_ne, ne_eq] at hs
-    obtain ⟨x, hxm, hne, hP⟩ := hs
-    refine ⟨x, hxm, ?_⟩
-    have : (x == []) = false := by simpa using hne
-    simp [hP, this]
+    simp only [sat, List.any_eq_true] at hs
+    exact hs
   | .phrase f ws slop bo, n, h => by
     simp only [estimate] at h
     by_cases hw0 : ws.isEmpty = true
